@@ -63,8 +63,16 @@ class InvertedBooleanCheckTransformer(LibcstResultTransformer):
                     new_operator = cst.GreaterThan()
                 case cst.GreaterThanEqual():
                     new_operator = cst.LessThan()
+                case cst.In():
+                    new_operator = cst.NotIn()
+                case cst.NotIn():
+                    new_operator = cst.In()
+                case cst.Is():
+                    new_operator = cst.IsNot()
+                case cst.IsNot():
+                    new_operator = cst.Is()
                 case _:
-                    new_operator = comparison_op
+                    new_operator = comparison_op.operator
 
             inverted_comparisons.append(
                 comparison_op.with_changes(operator=new_operator)
